@@ -104,6 +104,13 @@ def run(ctx):
         except Exception:
             return False
     core.run_stream(ctx, core.Stream("verify_delegation: trusted role sets x requested names x payload kinds x signer subsets x modes", cases, rel, oracle, nontriv))
+    # the body of verify_delegation as written in authentication.py (Gen/Source.v, translated on this run), interpreted, with the model answering
+    # for verify_signable: against the implementation on the cases above (bool flags; the interpreter answers Unmodelled elsewhere)
+    scases = [{"w": c["w"].replace("verify_delegation", "src_verify_delegation", 1), "meta": c["meta"]} for c in cases[:: (3 if ctx.quick else 1)]
+              if wire.dec(c["w"])[0] == "verify_delegation"]
+    core.run_stream(ctx, core.Stream("interpreted source of verify_delegation (Gen/Source.v via PySrc.run_body, verify_signable answered by the model) vs implementation",
+                                     scases, lambda c, io, mo: None if core.impl_class(io) == core.model_class(mo) else "the interpreted source and the implementation differ: impl %s, interpreter %s" % (core.impl_class(io), core.model_class(mo)),
+                                     None, nontrivial=lambda c, i, m: m != "U", mismatch_kind="tie"))
     def want(c):
         _, name, U, T, gpg = wire.dec(c["w"])
         try:
